@@ -26,7 +26,8 @@ def oracle(n, edges, initials, finals, strict, any_target=None):
         return ("abstract", None)
     edges = set(edges)
     if any_target is not None:
-        edges |= {(s, any_target) for s in range(n) if s not in finals}
+        for t in (any_target if isinstance(any_target, tuple) else (any_target,)):
+            edges |= {(s, t) for s in range(n) if s not in finals}
     if not edges and any_target is None:
         # (an event declared through from_.any() exists even if it expands to no transition)
         return ("reject", "no events")
@@ -95,7 +96,13 @@ def build_class(n, edges, initials, finals, strict, variant="shared", any_target
                     st[a].to(st[b], event="e", internal=True)   # raises unless a == b
                 else:
                     raise AssertionError(variant)
-            if any_target is not None:
+            if isinstance(any_target, tuple):
+                # one event made of several from_.any() transition lists (one per target)
+                tl = st[any_target[0]].from_.any()
+                for t in any_target[1:]:
+                    tl = tl | st[t].from_.any()
+                ns["anyev"] = tl
+            elif any_target is not None:
                 ns["anyev"] = st[any_target].from_.any()
             kw = {"strict_states": True} if strict else {}
             cls = StateMachineMetaclass("G", (StateMachine,), ns, **kw)
@@ -198,6 +205,12 @@ def worker(block):
                         if len(initials) == 1:
                             for t in range(n):
                                 _one(res, n, edges, set(initials), set(finals), strict, "shared", t)
+                            for ts in itertools.combinations_with_replacement(range(n), 2):
+                                _one(res, n, edges, set(initials), set(finals), strict, "shared",
+                                     ts)
+                            if n == 3:
+                                _one(res, n, edges, set(initials), set(finals), strict, "shared",
+                                     (0, 1, 2))
             res.stats["states"] += 1
     elif mode == "n4":
         _, n, lo, hi = block
@@ -267,7 +280,7 @@ def _one(res, n, edges, initials, finals, strict, variant, any_target, only_edge
     except Hang:
         got = ("error", RuntimeError("hung"))
     desc = (f"n={n} edges={sorted(edges)} initial={sorted(initials)} final={sorted(finals)} "
-            f"strict={strict} variant={variant}" + (f" from_.any()->s{any_target}"
+            f"strict={strict} variant={variant}" + (f" from_.any()->{any_target}"
                                                     if any_target is not None else ""))
     msg = compare(exp, got, desc)
     res.hist[exp[0] + (":" + exp[1] if exp[0] == "reject" else
@@ -295,7 +308,8 @@ def run(tier, seed):
         "traces_validated_against_impl": total.stats["evaluations"],
         "evaluations": total.stats["evaluations"],
         "bounds": "n<=3: every edge set x initial flags x final flags x strict (+ attribute-declared "
-                  "events, internal self-loops, duplicated edges, from_.any() to every target); "
+                  "events, internal self-loops, duplicated edges, from_.any() to every target, one event "
+                  "made of two or three from_.any() lists); "
                   "thorough adds n=4 (all 65536 edge sets x 16 final sets x 4 initial positions) and "
                   "n=5 with <=5 edges",
         "outcome_histogram": dict(total.hist),
@@ -314,5 +328,6 @@ def replay(sc):
         _one(res, 3, [], {0}, set(), False, "bad-internal", None, only_edge=tuple(sc["bad_internal"]))
     else:
         _one(res, sc["n"], [tuple(e) for e in sc["edges"]], set(sc["initials"]), set(sc["finals"]),
-             sc["strict"], sc["variant"], sc["any_target"])
+             sc["strict"], sc["variant"],
+             tuple(sc["any_target"]) if isinstance(sc["any_target"], list) else sc["any_target"])
     return res.violations[0]["message"] if res.violations else None
